@@ -63,12 +63,35 @@ def log(*a):
     print(*a, flush=True)
 
 
+def sweep_stale_work():
+    """Removes scratch directories left by runs that were killed (their process is gone) more than an hour ago."""
+    root = os.path.join(VERIF, ".work")
+    for d in os.listdir(root):
+        m = re.match(r"^C\d\d-[a-z]+-(\d+)$", d)
+        if not m:
+            continue
+        full = os.path.join(root, d)
+        try:
+            os.kill(int(m.group(1)), 0)
+            continue  # a live process owns it
+        except ProcessLookupError:
+            pass
+        except PermissionError:
+            continue
+        try:
+            if time.time() - os.path.getmtime(full) > 3600:
+                shutil.rmtree(full, ignore_errors=True)
+        except OSError:
+            pass
+
+
 class Work:
     def __init__(self, pid, tier, seed):
         self.pid, self.tier, self.seed = pid, tier, seed
         self.dir = os.path.join(VERIF, ".work", "%s-%s-%d" % (pid, tier, os.getpid()))
         shutil.rmtree(self.dir, ignore_errors=True)
         os.makedirs(self.dir)
+        sweep_stale_work()
         for f in os.listdir(SPEC):
             if f.endswith(".tla"):
                 shutil.copy(os.path.join(SPEC, f), self.dir)
